@@ -163,3 +163,56 @@ func VC_C05_api() {
 	}
 	verifReached("C05.api")
 }
+
+func vC05Pair(i int) (int, string) { return 0, "" }
+
+var vC05RowN = [3]string{"row0", "row1", "row2"}
+
+// VC_C05_returns_rows: Returns given rows ([]interface{}{...}, one per call) for a
+// function with two results, for the default and for a condition, with 1..3 rows: the
+// k-th call gets the k-th row, later calls the last one.
+func VC_C05_returns_rows() {
+	n := 1 + verifChoice("rows", 3)
+	onCond := verifBool("onCondition")
+	var vals [3]int
+	rows := make([]interface{}, n)
+	strs := [3]string{"s0", "s1", "s2"}
+	for i := 0; i < n; i++ {
+		vals[i] = verifInt(vC05RowN[i])
+		rows[i] = []interface{}{vals[i], strs[i]}
+	}
+	panicked := false
+	var w *When
+	func() {
+		defer func() {
+			if r := recover(); r != nil {
+				panicked = true
+			}
+		}()
+		var err error
+		w, err = CreateWhen(nil, vC05Pair, nil, []interface{}{-1, "d"}, false)
+		verifAssert(err == nil, "C05.rows.create-ok")
+		if onCond {
+			w.When(5).Returns(rows...)
+		} else {
+			// a fresh default sequence
+			w, err = CreateWhen(nil, vC05Pair, nil, nil, false)
+			verifAssert(err == nil, "C05.rows.create-ok")
+			w.Returns(rows...)
+		}
+	}()
+	verifAssert(!panicked, "C05.rows.configuration-accepted")
+	if panicked {
+		return
+	}
+	f := reflect.MakeFunc(w.funcTyp, func(args []reflect.Value) []reflect.Value { return w.invoke(args) }).Interface().(func(int) (int, string))
+	for k := 0; k < 4; k++ {
+		g1, g2 := f(5)
+		j := k
+		if j > n-1 {
+			j = n - 1
+		}
+		verifAssert(g1 == vals[j] && g2 == strs[j], "C05.rows.kth-call-gets-kth-row")
+	}
+	verifReached("C05.rows")
+}
